@@ -115,8 +115,9 @@ def run(ctx: Ctx) -> None:
     vconf = [("SVF", "param", "GridsDenseQ"), ("SVF", "tensor", "GridsDenseQ"), ("SVF", "callable", "GridsDenseQ"), ("SVFFD", "tensor", "GridsSpline")]
     if tier == "thorough":
         vconf += [("SVFFD", "param", "GridsSpline"), ("SVFFD", "callable", "GridsSpline")]
-    hs = c09.enumerate_histories(ctx, vconf, 2 if tier == "quick" else 3, 3 if tier == "quick" else 4, "inv")
-    hs += c09.simulate_histories(ctx, vconf, 3, 8 if tier == "quick" else 12, 100 if tier == "quick" else 2000)
+    # the forward transform starts with non-identity parameters (version 1) so that the sign of the inverse is visible
+    hs = c09.enumerate_histories(ctx, vconf, 2 if tier == "quick" else 3, 3 if tier == "quick" else 4, "inv", initver=1)
+    hs += c09.simulate_histories(ctx, vconf, 3, 8 if tier == "quick" else 12, 100 if tier == "quick" else 2000, initver=1)
     n = 0
     seen = set()
     for h in hs:
